@@ -10,6 +10,7 @@ import GabiModel.Ops.RevOps
 import GabiModel.Ops.Serial
 import GabiModel.Ops.KeyGenOps
 import GabiModel.Ops.KeyProofOps
+import GabiModel.Ops.KeyProofTreeOps
 import GabiModel.Ops.Conc
 namespace Gabi.Ops
 open Lean Gabi Gabi.Wire
@@ -22,6 +23,7 @@ def handlers : List Handler := [
   Serial.handle,
   KeyGenOps.handle,
   KeyProofOps.handle,
+  KeyProofTreeOps.handle,
   Conc.handle
 ]
 
